@@ -218,20 +218,18 @@ Section Displaced.
                      | None, _ => ErrR E_ATTR | Some _, None => ErrR E_TYPE | _, _ => OkR tt end
                    else OkR tt);
           do kids' <-
-            (fix go (l : list ixml) : R (list ixml) :=
+            (* skip = the previous sibling was a displaced block: its tail text goes with it *)
+            (fix go (skip : bool) (l : list ixml) : R (list ixml) :=
                match l with
                | [] => OkR []
                | k :: r =>
                    match k with
                    | IEl _ kt _ _ =>
                        do k' <- splice_displaced f' k;
-                       if str_eqb kt DISPLACED then
-                         (* the block's tail text goes with it *)
-                         do r' <- go (match r with ITx _ :: r0 => r0 | _ => r end); OkR (k' ++ r')
-                       else do r' <- go r; OkR (k' ++ r')
-                   | ITx _ => do r' <- go r; OkR (k :: r')
+                       do r' <- go (str_eqb kt DISPLACED) r; OkR (k' ++ r')
+                   | ITx _ => do r' <- go false r; OkR (if skip then r' else k :: r')
                    end
-               end) kids;
+               end) false kids;
           if str_eqb tag DISPLACED then
             match get_attr NAME attrs, get_attr MARKER attrs with
             | Some n, Some m =>
@@ -268,15 +266,16 @@ Fixpoint normalise (fuel : nat) (x : xml) : xml :=
     | Tx _ => x
     | El tag attrs kids =>
         El tag attrs
-          ((fix go (l : list xml) : list xml :=
+          ((fix go (skip : bool) (l : list xml) : list xml :=
               match l with
               | [] => []
-              | El t a [] :: r =>
-                  if mem_str t removable
-                  then go (match r with Tx _ :: r' => r' | _ => r end)
-                  else El t a [] :: go r
-              | k :: r => normalise f k :: go r
-              end) kids)
+              | k :: r =>
+                  match k with
+                  | Tx _ => if skip then go false r else k :: go false r
+                  | El t a [] => if mem_str t removable then go true r else k :: go false r
+                  | El _ _ (_ :: _) => normalise f k :: go false r
+                  end
+              end) false kids)
     end
   end.
 
